@@ -155,19 +155,30 @@ func TestVerifC07(t *testing.T) {
 		}
 	}
 	reps := verifh.Pick(3, 40)
+	zone := os.Getenv("TZ")
+	dstZone := zone != "" && zone != "UTC"
 	for ci, cf := range cfgs {
 		for rep := 0; rep < reps; rep++ {
 			r := verifh.Rand(fmt.Sprintf("c07/%d", ci), rep)
+			t0 := time.Date(2024, 5, 10, 0, 0, 0, 0, time.UTC)
+			if dstZone {
+				// the runner repeats this binary in a zone with daylight saving (TZ): start the day before the spring-forward
+				// day of 2024 so that the TTL window of the later clock positions contains a 23-hour day. Only DAY grids here:
+				// the HOUR grid outside UTC is C06's recorded finding.
+				if cf.interval.Unit == HOUR {
+					continue
+				}
+				t0 = time.Date(2024, 3, 9, 12, 0, 0, 0, time.UTC)
+			}
 			dir := freshVDir(base)
 			clock := timestamp.NewMockClock()
-			t0 := time.Date(2024, 5, 10, 0, 0, 0, 0, time.UTC)
 			clock.Set(t0)
 			v, err := openVDB(dir, clock, dbOpts{interval: cf.interval, ttl: cf.ttl})
 			if err != nil {
 				s.Violation("c07:open-failed", map[string]any{"err": err.Error()})
 				continue
 			}
-			c := &c07{s: s, v: v, ttl: cf.ttl.estimatedDuration(), label: ruleString(cf.interval) + "/ttl=" + ruleString(cf.ttl)}
+			c := &c07{s: s, v: v, ttl: cf.ttl.estimatedDuration(), label: ruleString(cf.interval) + "/ttl=" + ruleString(cf.ttl) + zoneSuffix(zone)}
 			step := cf.interval.estimatedDuration()
 			// 1..5 segments, consecutive or with gaps, the newest containing t0
 			n := 1 + r.Intn(5)
@@ -293,4 +304,11 @@ func TestVerifC07(t *testing.T) {
 	}
 	os.RemoveAll(base)
 	s.Done()
+}
+
+func zoneSuffix(zone string) string {
+	if zone == "" || zone == "UTC" {
+		return ""
+	}
+	return "/" + zone
 }
